@@ -50,6 +50,7 @@ fn end_or_null(v: Value, is_end: bool) -> Value {
 
 fn eval_naive(oh: &OpeningHours<NoLocation>, t: NaiveDateTime, input_tz: Option<Tz>, skip_window: bool) -> Value {
     let st = oh.state(t);
+    let n = oh.normalize();
     let ivs = |it: Vec<DateTimeRange<NaiveDateTime>>| -> Vec<Value> {
         it.iter()
             .map(|r| {
@@ -64,11 +65,17 @@ fn eval_naive(oh: &OpeningHours<NoLocation>, t: NaiveDateTime, input_tz: Option<
         "next_change": oh.next_change(t).map(|n| attach(n, input_tz)).unwrap_or(Value::Null),
         "intervals": ivs(oh.iter_from(t).take(4).collect()),
         "intervals_bounded": if skip_window { Vec::new() } else { ivs(oh.iter_range(t, t + Duration::days(3)).take(12).collect()) },
+        // the object returned by Python's normalize() must behave like the core's normal form under the same context, and an
+        // iterator consumed between other calls must give the elements of the stream (Session.tla)
+        "norm": {"state": n.state(t).as_str(), "next_change": n.next_change(t).map(|x| attach(x, input_tz)).unwrap_or(Value::Null),
+                 "intervals": ivs(n.iter_from(t).take(3).collect())},
+        "interleaved": ivs(oh.iter_from(t).take(4).collect()),
     })
 }
 
 fn eval_aware(oh: &OpeningHours<TzLocation<Tz>>, t: DateTime<Tz>, end: DateTime<Tz>, skip_window: bool) -> Value {
     let st = oh.state(t);
+    let n = oh.normalize();
     let ivs = |it: Vec<DateTimeRange<DateTime<Tz>>>| -> Vec<Value> {
         it.iter()
             .map(|r| {
@@ -83,6 +90,9 @@ fn eval_aware(oh: &OpeningHours<TzLocation<Tz>>, t: DateTime<Tz>, end: DateTime<
         "next_change": oh.next_change(t).map(|d| aware_json(&d)).unwrap_or(Value::Null),
         "intervals": ivs(oh.iter_from(t).take(4).collect()),
         "intervals_bounded": if skip_window { Vec::new() } else { ivs(oh.iter_range(t, end).take(12).collect()) },
+        "norm": {"state": n.state(t).as_str(), "next_change": n.next_change(t).map(|d| aware_json(&d)).unwrap_or(Value::Null),
+                 "intervals": ivs(n.iter_from(t).take(3).collect())},
+        "interleaved": ivs(oh.iter_from(t).take(4).collect()),
     })
 }
 
